@@ -26,9 +26,10 @@ def HotB (s : State) (sid : Nat) : Prop :=
 /-- some thread's next action swaps the cell of `sid` -/
 def Swapper (r : Registry.State) (sid : Nat) : Prop := ∃ t, swapsNext (pcOf r t) sid = true
 
-/-- `sid` is registered under a key of the snapshot that the final pass of call `w` has not visited -/
+/-- `sid` is registered under a key of the snapshot, and that snapshot entry `(k, sid)` is one the final pass of call
+`w` has not visited -/
 def Unvisited (s : State) (w sid : Nat) : Prop :=
-  ∃ k, (k, sid) ∈ s.reg.reg ∧ (k, sid) ∈ s.snap ∧ k ∉ visitedOf (pcOf s.reg (closerTid w))
+  ∃ k, (k, sid) ∈ s.reg.reg ∧ (k, sid) ∈ s.snap ∧ (k, sid) ∉ visitedOf (pcOf s.reg (closerTid w))
 
 def Cov (s : State) (w sid : Nat) : Prop :=
   match s.closers w with
@@ -167,7 +168,7 @@ theorem unvisited_keep (h : TokBase san s) (hr : Registry.step san s.reg e = som
         refine ⟨k, by rw [hreg]; exact hk', by rw [hsnap]; exact hks, ?_⟩
         rw [hreg, hpc']
         simp only [visitedOf, List.mem_cons, not_or]
-        exact ⟨fun e => he e.symm, hkv⟩
+        exact ⟨fun e => he (congrArg Prod.fst e).symm, hkv⟩
 
 end regStep
 
